@@ -63,6 +63,13 @@ def single_defs(fn):
             if isinstance(n, ast.Assign) and len(n.targets) == 1 \
                     and isinstance(n.targets[0], ast.Name):
                 vals[n.targets[0].id] = n.value
+            # a, b = V: each name is the element of V at its position
+            if isinstance(n, ast.Assign) and len(n.targets) == 1 \
+                    and isinstance(n.targets[0], (ast.Tuple, ast.List)) \
+                    and all(isinstance(e, ast.Name) for e in n.targets[0].elts):
+                for i, e in enumerate(n.targets[0].elts):
+                    vals[e.id] = ast.Subscript(value=n.value, slice=ast.Constant(i),
+                                               ctx=ast.Load())
         _SINGLE[id(fn)] = ({k: v for k, v in vals.items()
                             if counts.get(k) == 1 and k not in params}, fn)
     return _SINGLE[id(fn)][0]
@@ -80,6 +87,15 @@ def resolve(fn, node, depth=0, keep=()):
             if isinstance(n.ctx, ast.Load) and depth <= 6 and n.id in defs \
                     and n.id not in keep:
                 return resolve(fn, defs[n.id], depth + 1, keep)
+            return n
+
+        def visit_Subscript(self, n):
+            self.generic_visit(n)
+            if isinstance(n.value, (ast.Tuple, ast.List)) and isinstance(n.slice, ast.Constant) \
+                    and isinstance(n.slice.value, int) and not isinstance(n.slice.value, bool) \
+                    and 0 <= n.slice.value < len(n.value.elts) and not any(
+                        isinstance(e, ast.Starred) for e in n.value.elts):
+                return n.value.elts[n.slice.value]
             return n
     for x in ast.walk(node):
         x.__dict__.pop("_parent_tmp", None)
